@@ -98,6 +98,11 @@ var vfC02Shapes = [][2]string{
 	{"LINESTRING(0 0,0 2)", "LINESTRING(0 1,0 3)"},
 	{"LINESTRING(0 -1,0 2)", "POINT(0 1)"},
 	{"LINESTRING(-1 0,2 0)", "MULTIPOINT(1 0,5 0)"},
+	// the only contact is an end vertex of one line strictly inside a segment of the other
+	{"LINESTRING(0 0,4 0)", "LINESTRING(2 3,2 0)"},
+	{"LINESTRING(0 0,4 0)", "LINESTRING(2 0,2 3)"},
+	{"POLYGON((0 0,4 0,0 4,0 0))", "LINESTRING(5 5,6 5,6 6,5 6,2 2)"},
+	{"LINESTRING(0 0,4 0,4 4)", "MULTILINESTRING((1 3,1 0),(6 2,4 2))"},
 }
 
 // Relate on concrete operands against the definition, cell by cell: a cell is
